@@ -150,6 +150,7 @@ func (c *channel) setStateWLock(state SessionState) {
 	if state.Step() < c.state.Step() {
 		panic(fmt.Errorf("cannot change from state %s to %s", c.state, state))
 	}
+	verifState(c, c.state, state)
 
 	c.state = state
 }
@@ -181,6 +182,7 @@ func receiveFromTransport(ctx context.Context, c *channel, done chan<- struct{})
 
 	for c.Established() {
 		env, err := c.transport.Receive(ctx)
+		verifPoint("channel.recv.got")
 		if err != nil {
 			if ctx.Err() == nil {
 				log.Printf("receiveFromTransport: %v", err)
@@ -342,6 +344,7 @@ func (c *channel) sendToTransport(ctx context.Context, e envelope, action string
 	if err := c.ensureEstablished(action); err != nil {
 		return err
 	}
+	verifPoint("channel.send.checked")
 
 	c.sendMu.Lock()
 	defer c.sendMu.Unlock()
@@ -398,8 +401,10 @@ func (c *channel) processCommand(ctx context.Context, sender RequestCommandSende
 	respChan := make(chan *ResponseCommand, 1)
 	c.processingCmds[reqCmd.ID] = respChan
 	c.processingCmdsMu.Unlock()
+	verifPoint("channel.process.registered")
 
 	defer func() {
+		verifPoint("channel.process.cleanup")
 		c.processingCmdsMu.Lock()
 		delete(c.processingCmds, reqCmd.ID)
 		c.processingCmdsMu.Unlock()
@@ -430,6 +435,7 @@ func (c *channel) trySubmitCommandResult(respCmd *ResponseCommand) bool {
 	if !ok {
 		return false
 	}
+	verifPoint("channel.submit.between")
 
 	c.processingCmdsMu.Lock()
 	delete(c.processingCmds, respCmd.ID)
